@@ -374,3 +374,95 @@ def fold_strings(func_node, module_consts=None):
                 if isinstance(t, ast.Name):
                     env.pop(t.id, None)
     return env, pats
+
+
+# -- DFAs (for conditioning a language on a sequence of decisions) ---------------------------------------
+
+class DFA:
+    __slots__ = ('reps', 'trans', 'start', 'accept')
+
+    def __init__(self, reps, trans, start, accept):
+        self.reps = reps
+        self.trans = trans      # list of dict: rep -> state (complete)
+        self.start = start
+        self.accept = accept
+
+
+def common_partition(nfas):
+    return _partition(nfas)
+
+
+def to_dfa(nfa, reps, limit=60000):
+    start = _closure(nfa, {nfa.start})
+    index = {start: 0}
+    order = [start]
+    trans = []
+    cache = {}
+    i = 0
+    while i < len(order):
+        S = order[i]
+        row = {}
+        for ch in reps:
+            T = _step(nfa, S, ch, cache)
+            if T not in index:
+                index[T] = len(order)
+                order.append(T)
+                if len(order) > limit:
+                    raise AnalysisError('DFA too large')
+            row[ch] = index[T]
+        trans.append(row)
+        i += 1
+    accept = {k for S, k in index.items() if nfa.accept in S}
+    return DFA(reps, trans, 0, accept)
+
+
+def dfa_not(d):
+    return DFA(d.reps, d.trans, d.start, set(range(len(d.trans))) - d.accept)
+
+
+def dfa_and(a, b, limit=400000):
+    index = {(a.start, b.start): 0}
+    order = [(a.start, b.start)]
+    trans = []
+    i = 0
+    while i < len(order):
+        x, y = order[i]
+        row = {}
+        for ch in a.reps:
+            t = (a.trans[x][ch], b.trans[y][ch])
+            if t not in index:
+                index[t] = len(order)
+                order.append(t)
+                if len(order) > limit:
+                    raise AnalysisError('DFA product too large')
+            row[ch] = index[t]
+        trans.append(row)
+        i += 1
+    accept = {k for (x, y), k in index.items() if x in a.accept and y in b.accept}
+    return DFA(a.reps, trans, 0, accept)
+
+
+def dfa_witness(d):
+    """Shortest accepted word or None."""
+    q = deque([(d.start, '')])
+    seen = {d.start}
+    while q:
+        s, w = q.popleft()
+        if s in d.accept:
+            return w
+        for ch in d.reps:
+            t = d.trans[s][ch]
+            if t not in seen:
+                seen.add(t)
+                q.append((t, w + ch))
+    return None
+
+
+def contains_literal_nfa(lit):
+    """Sigma* lit Sigma*"""
+    return regex_nfa(sp_escape(lit), 'search')
+
+
+def sp_escape(lit):
+    import re as _re
+    return _re.escape(lit)
